@@ -2,7 +2,7 @@
 # tools/lane.sh <N> <command…> — run a command in "lane" N: a private mount namespace in which /repo and /verif are
 # full private copies (made under /var/tmp/lanes/N, build output included, mtimes preserved so nothing rebuilds), so that
 # several seeded / benign patches can be trialled at once without touching the real /repo or each other's verdicts.
-# The copies are re-synchronised at every call: /repo from its working tree, /verif from its last commit.  Evidence written in a lane stays
+# The copies are re-synchronised at every call from the last commits of /repo and /verif.  Evidence written in a lane stays
 # in the lane: committed evidence only ever comes from /verif run against /repo itself.
 N="$1"; shift
 L=/var/tmp/lanes/$N
@@ -14,10 +14,19 @@ if [ ! -d $L/verif/harness ]; then
   mkdir -p $L/verif
   rsync -a --exclude /work --exclude /replays /verif/ $L/verif/
 fi
-# bring sources up to date (build output kept). /repo: the working tree as it is. /verif: the last COMMIT (other
-# work may be half-edited in the working tree); only files whose content changed are touched, so cargo and lake
+# bring sources up to date (build output kept). /repo and /verif: their last COMMITS (other
+# work — builders' half-edited files, hand mutations under trial — may be in the working trees); only files whose content changed are touched, so cargo and lake
 # rebuild only what changed.
-rsync -a --delete --exclude /target /repo/ $L/repo/
+if [ -n "$LANE_REPO_WORKTREE" ]; then
+  # on request: /repo as it is in the working tree (uncommitted edits included)
+  rsync -a --delete --exclude /target /repo/ $L/repo/
+else
+  rsync -a --delete /repo/.git/ $L/repo/.git/
+  EXPR=/var/tmp/lanes/_exportr.$$
+  rm -rf $EXPR && mkdir -p $EXPR && git -C /repo archive HEAD | tar -x -C $EXPR
+  rsync -rlpc --delete --exclude /.git --exclude /target $EXPR/ $L/repo/
+  rm -rf $EXPR
+fi
 EXP=/var/tmp/lanes/_export.$$
 rm -rf $EXP && mkdir -p $EXP && git -C /verif archive HEAD | tar -x -C $EXP
 rsync -rlpc --delete --exclude /work --exclude /replays --exclude '/harness/target*' --exclude /lean/.lake \
